@@ -15,7 +15,7 @@ import random
 from simkit.driver import Check, base_result
 from ref import codec as C
 from checks.worlda import draw_clock_jumps, schedule_clock_jumps, install_func_stalls
-from checks.worldb import (WorldB, APPS, draw_sched_b, draw_knobs_b, LOCAL_HOST,
+from checks.worldb import (WorldB, WorldB2, APPS, draw_sched_b, draw_knobs_b, draw_full_stack, LOCAL_HOST,
                            LOCAL_REALM, PEER_HOST, PEER_REALM)
 
 TAG_CODE = 99999
@@ -62,9 +62,12 @@ class C14(Check):
     components_real = ["Bromelia.send_message / handler_pending_answers / main / create_message_thread",
                        "Worker (queues, locks, pending-answer registry, recv_handler, send_handler)", "PendingAnswer",
                        "DiameterMessage.load for arriving answers"]
-    components_stub = ["connection object underneath Worker (StubConnection instead of Diameter)",
-                       "multiprocessing.Manager -> in-process simulated primitives",
-                       "Worker.run / Diameter.context (harness starts recv_handler/send_handler/main directly)"]
+    components_stub = ["three runs in four (world B1): the connection object underneath Worker is a StubConnection instead of a "
+                       "Diameter, and the harness starts recv_handler/send_handler/main directly",
+                       "one run in four (world B2, full stack): nothing between the handlers / callers and the wire is a stub -- "
+                       "Bromelia.run, _run, Worker.run, Diameter.context, DiameterAssociation, PeerStateMachine, TcpClient run "
+                       "as shipped on the simulated OS, a scripted reference peer is the remote end",
+                       "multiprocessing.Manager -> in-process simulated primitives; Worker.start runs Worker.run as a simulator thread"]
     assumptions = ["an answer that never arrives leaves its caller blocked (excluded from the wake clause)",
                    "liveness bound D is a multiple of the polling intervals drawn for the run"]
 
@@ -188,6 +191,10 @@ class C14(Check):
             scn["settle"] = slow + 60.0
             scn["horizon"] = slow + 200.0
             scn["max_steps"] = 12_000_000
+        elif index % 4 == 3:
+            # full stack (world B2): Bromelia.run() -> Worker.run() -> Diameter.context() -> real nodes on the
+            # simulated network, the scripted peer answering on the wire
+            draw_full_stack(rng2, scn)
         return scn
 
     def shrink(self, scn):
@@ -237,25 +244,24 @@ class C14(Check):
                 "knobs": scn["knobs"], "outcome": res.get("summary")}
 
     def run(self, scn, tape_in=None):
-        wb = WorldB(scn, tape_in)
+        wb = WorldB2(scn, tape_in) if scn.get("full_stack") else WorldB(scn, tape_in)
         sim = wb.sim
         for s in scn["stalls"]:
             sim.stall_plan.setdefault("B:caller%d" % s["caller"], []).append((s["at"], s["dur"]))
         violations = []
         knobs = wb.world.knobs
         D = 1.0 + 400 * knobs["BROMELIA_TICKER"] + 100 * knobs["PROCESS_TIMER"] + 10 * knobs["SEND_THRESHOLD_TICKER"] + \
-            sum(fs["dur"] for fs in scn.get("func_stalls") or ())
+            sum(fs["dur"] for fs in scn.get("func_stalls") or ()) + 2 * wb.latency()
         results = {}        # (caller, j) -> record
         req_info = {}       # hbh hex -> info
         stats = {"answers_arrived": 0, "dups": 0, "never": 0, "unsolicited": 0, "max_inflight": 0,
                  "fast_answers": 0}
+        started = [False]
 
         def main(sim):
             from bromelia.base import DiameterRequest
             from bromelia.avps import SessionIdAVP, OriginHostAVP, OriginRealmAVP, DestinationRealmAVP
             app = wb.build(scn["apps_per_worker"])
-            for w in wb.workers:
-                w.pending_answers = LoggingDict(wb)
             inflight = set()
 
             def on_send(stub, msg, raw):
@@ -296,6 +302,14 @@ class C14(Check):
             for st in wb.stubs:
                 st.on_send = on_send
             wb.start()
+            if wb.full_stack and not all(w.is_open.is_set() for w in wb.workers):
+                sim.probe("b2_not_open")
+                return None         # the connections did not open: nothing to judge (inconclusive)
+            for w in wb.workers:
+                w.pending_answers = LoggingDict(wb)
+            started[0] = True
+            if wb.full_stack:
+                sim.probe("b2_open")
             schedule_clock_jumps(sim, scn.get("clock_jumps"))
             install_func_stalls(sim, scn.get("func_stalls"))
 
